@@ -77,6 +77,7 @@ var probeFuncs = map[string]bool{
 	"rtpconn.readLoop":              true,
 	"rtpconn.rtpWriterLoop":         true,
 	"rtpconn.nackWriter":            true,
+	"packetcache.(*Cache).Store":    true,
 	"rtpconn.sendUpRTCP":            true,
 	"rtpconn.handleReport":          true,
 	"rtpconn.rtcpDownListener":      true,
